@@ -322,3 +322,297 @@ Proof.
     destruct (base_only_switch o); exact Hgo.
   - destruct Hcs.
 Qed.
+
+(* ---------- directories of the base stay empty along a frame ---------- *)
+Lemma frame_dirs_empty rho s s' :
+  Frame rho s s' -> (forall k r n, lookup s k = Some r -> get_node s r = Some n -> ndir n = true -> ndata n = []) ->
+  forall k' r n', lookup s' k' = Some r -> get_node s' r = Some n' -> ndir n' = true -> ndata n' = [].
+Proof.
+  intros F Td k' r n' Hl Hn' Hd. destruct (fresh_or_old s r) as [Hf|(n & Hn)].
+  - exact (fr_fresh _ _ _ F k' r n' Hl Hf Hn' Hd).
+  - destruct (fr_nodes _ _ _ F r n Hn) as (n2 & Hn2 & Hd2 & Hdat). rewrite Hn' in Hn2. inversion Hn2; subst n2.
+    pose proof (frame_old _ _ _ _ _ _ F Hl Hn) as Ho. destruct (rho k') as [k|] eqn:Er; [|discriminate Ho]. cbn [olookup] in Ho.
+    rewrite Hdat by congruence. apply (Td k r n Ho Hn). congruence.
+Qed.
+
+(* the base gains names (nothing else changes for the layer): the shape of the invariant survives *)
+Lemma TreeShape_base_grow sb sl phi sb' :
+  TreeShape sb sl phi -> Frame Some sb sb' -> WF sb' -> TreeShape sb' sl phi.
+Proof.
+  intros [A B C D E F G] Fr W'. split; auto.
+  - intros k rl H. destruct (C k rl H) as (rb & Hp & Hb). exists rb. split; [exact Hp|]. now apply (frame_keep Some sb sb' k rb Fr).
+  - intros rl rb H. destruct (D rl rb H) as (nl & nb & H1 & H2 & H3). destruct (fr_nodes _ _ _ Fr rb nb H2) as (nb' & Hnb' & Hd' & _).
+    exists nl, nb'. split; [exact H1|]. split; [exact Hnb'|]. congruence.
+  - intros rl rb k H Hb. destruct (D rl rb H) as (_ & nb & _ & Hnb & _). pose proof (frame_old _ _ _ _ _ _ Fr Hb Hnb) as Ho. cbn [olookup] in Ho.
+    now apply (E rl rb k).
+  - exact (frame_dirs_empty Some sb sb' Fr G).
+Qed.
+
+(* ---------- Stat ---------- *)
+Theorem cinv_stat dur now sb sl tbl p :
+  CInv (sb, sl, tbl) -> CInv (fst (cache_step m_step m_step dur now (sb, sl, tbl) (Stat p))).
+Proof.
+  intros (phi & C). cbn [cache_step].
+  destruct (status_mem dur now sb sl phi p (TreeInv_shape _ _ _ (proj1 C))) as (sb1 & sl1 & cs & fi & Est & Sb & Sl & Hcs).
+  rewrite Est. pose proof (CInvP_view sb sl tbl phi sb1 sl1 Sb Sl C) as C1.
+  destruct cs.
+  - rewrite (step_stat_full sb1 p (ti_wfb _ _ _ (proj1 C1))). cbn [fst cret]. exists phi.
+    apply (CInvP_view sb1 sl1 tbl phi); [apply same3_bump | apply same3_refl | exact C1].
+  - destruct fi; cbn [fst cret]; now exists phi.
+  - destruct fi; cbn [fst cret]; now exists phi.
+  - destruct Hcs.
+Qed.
+
+(* ---------- Mkdir / MkdirAll ---------- *)
+Lemma cinv_mkdirall_both sb sl tbl phi p perm1 perm2 :
+  CInvP sb sl tbl phi -> wf_name p = true -> prefixes_dirs sb (normalize_path p) = true ->
+  exists phi', CInvP (fst (m_step sb (MkdirAll p perm1))) (fst (m_step sl (MkdirAll p perm2))) tbl phi'.
+Proof.
+  intros [T B] Hw Hpre. set (key := normalize_path p) in *.
+  pose proof (ti_wfb _ _ _ T) as Wb. pose proof (ti_wfl _ _ _ T) as Wl.
+  destruct (mkdirall_step sb p perm1 Wb Hw Hpre) as (_ & Wb' & Fb & Db & Hhb & Hdb & _). fold key in Hdb.
+  destruct (mkdirall_step sl p perm2 Wl Hw (prefixes_base_layer sb sl phi (TreeInv_shape _ _ _ T) key Hpre)) as (_ & Wl' & Fl & Dl & Hhl & _ & Hch).
+  fold key in Hch.
+  set (sb' := fst (m_step sb (MkdirAll p perm1))) in *. set (sl' := fst (m_step sl (MkdirAll p perm2))) in *.
+  destruct (cinv_frames sb sl tbl phi sb' sl' Some (conj T B) Wb' Wl' Fb Fl Db Dl) as (phi' & C & _).
+  - intros i h H. now rewrite Hhb.
+  - intros i h H. now rewrite Hhl.
+  - intros k' rl Hk Hf. destruct (Hch k' rl Hk Hf) as (Hwhere & n & Hn & Hdn & Hen).
+    apply is_dir_at_true in Hdb as (rk & nk & Hlk & Hnk & Hdk).
+    assert (Hbk : exists ra na, lookup sb' k' = Some ra /\ get_node sb' ra = Some na /\ ndir na = true).
+    { destruct Hwhere as [->|Hbel]; [now exists rk, nk|]. exact (anc_live sb' key rk k' Wb' Hlk (g_canon _ _ _ _ Wl' k' rl Hk) Hbel). }
+    destruct Hbk as (ra & na & Hla & Hna & Hda). exists ra, n, na. repeat split; auto; try congruence.
+    rewrite (frame_dirs_empty Some sb sb' Fb (ti_dirs _ _ _ T) k' ra na Hla Hna Hda). exact Hen.
+  - now exists phi'.
+Qed.
+
+Theorem cinv_mkdirall dur now sb sl tbl p perm :
+  CInv (sb, sl, tbl) -> WfOps.wf_op sb (MkdirAll p perm) = true ->
+  CInv (fst (cache_step m_step m_step dur now (sb, sl, tbl) (MkdirAll p perm))).
+Proof.
+  intros (phi & C) Hwf. cbn [cache_step]. cbn [WfOps.wf_op] in Hwf. apply andb_true_iff in Hwf as [Hw Hpre].
+  destruct (cinv_mkdirall_both sb sl tbl phi p perm perm C Hw Hpre) as (phi' & C').
+  destruct (mkdirall_step sb p perm (ti_wfb _ _ _ (proj1 C)) Hw Hpre) as (Hres & _).
+  destruct (m_step sb (MkdirAll p perm)) as [sb1 r]. cbn [fst snd] in *. subst r.
+  destruct (m_step sl (MkdirAll p perm)) as [sl1 r]. cbn [fst cret] in *. now exists phi'.
+Qed.
+
+Theorem cinv_mkdir dur now sb sl tbl p perm :
+  CInv (sb, sl, tbl) -> WfOps.wf_op sb (Mkdir p perm) = true ->
+  CInv (fst (cache_step m_step m_step dur now (sb, sl, tbl) (Mkdir p perm))).
+Proof.
+  intros (phi & C) Hwf. cbn [cache_step]. pose proof (ti_wfb _ _ _ (proj1 C)) as Wb.
+  destruct (mkdir_step sb p perm Wb Hwf) as [Hex Hmiss].
+  assert (Hw : wf_name p = true) by (cbn [WfOps.wf_op] in Hwf; now apply andb_true_iff in Hwf as [Hw _]).
+  destruct (lookup sb (normalize_path p)) as [f|] eqn:Hl.
+  - rewrite Hex by congruence. cbn [fst cret]. exists phi. apply (CInvP_view sb sl tbl phi); [apply same3_bump | apply same3_refl | exact C].
+  - destruct (Hmiss eq_refl) as (Hres & Hfst & Hpre).
+    destruct (cinv_mkdirall_both sb sl tbl phi p perm perm C Hw Hpre) as (phi' & C'). rewrite <- Hfst in C'.
+    destruct (m_step sb (Mkdir p perm)) as [sb1 r]. cbn [fst snd] in *. subst r.
+    destruct (m_step sl (MkdirAll p perm)) as [sl1 r]. cbn [fst cret] in *. now exists phi'.
+Qed.
+
+(* ---------- the general step with the bytes of the pairs given explicitly ---------- *)
+Lemma cinv_step_gen sb sl tbl phi sb' sl' rho :
+  CInvP sb sl tbl phi -> WF sb' -> WF sl' -> Frame rho sb sb' -> Frame rho sl sl' ->
+  (forall rl rb nl nb, phi rl = Some rb -> get_node sl' rl = Some nl -> get_node sb' rb = Some nb -> ndata nl = ndata nb) ->
+  hkeep sb sb' -> hkeep sl sl' ->
+  (forall k' rl, lookup sl' k' = Some rl -> fresh_in sl rl ->
+     exists rb nl nb, lookup sb' k' = Some rb /\ get_node sl' rl = Some nl /\ get_node sb' rb = Some nb /\
+                      ndir nl = ndir nb /\ ndata nl = ndata nb) ->
+  exists phi', CInvP sb' sl' tbl phi' /\ (forall rl rb, phi rl = Some rb -> phi' rl = Some rb).
+Proof.
+  intros [T B] Wb Wl Fb Fl H4 Kb Kl H5.
+  destruct (TreeInv_step phi sb sl sb' sl' rho T Wb Wl Fb Fl H4 H5) as [T' Hext].
+  exists (phi_next phi sl sb' sl'). split; [split; [exact T'|] | exact Hext].
+  apply (TblInv_mono sb sl tbl phi); auto; [exact (frame_kkeep _ _ _ Fl) | exact (phi_has_node phi sb sl T)].
+Qed.
+
+(* ---------- a new UnionFile in the table ---------- *)
+Lemma TblInv_new_union sb sl tbl phi bh lh hb hl :
+  TblInv sb sl tbl phi ->
+  nth_error (mhandles sb) bh = Some hb -> nth_error (mhandles sl) lh = Some hl ->
+  hproj_eq hb hl -> phi (href hl) = Some (href hb) ->
+  (forall nl, get_node sl (href hl) = Some nl -> ndir nl = true -> inert hl = true) ->
+  (forall i c, nth_error tbl i = Some c -> ~ In bh (bhs c)) -> (forall i c, nth_error tbl i = Some c -> ~ In lh (lhs c)) ->
+  TblInv sb sl (tbl ++ [HU (mkUF (Some bh) (Some lh) 0 [])]) phi.
+Proof.
+  intros B Hb Hl Hp Hphi Hdir Hfb Hfl. apply TblInv_snoc; auto.
+  - cbn [EntOK]. exists bh, lh, hb, hl. repeat split; auto; apply Hp.
+  - intros i ci h Hi Hin Hx. destruct Hx as [Hx|[]]. subst h. exact (Hfb i ci Hi Hin).
+  - intros i ci h Hi Hin Hx. destruct Hx as [Hx|[]]. subst h. exact (Hfl i ci Hi Hin).
+Qed.
+
+Lemma tbl_handles_below sb sl tbl phi : TblInv sb sl tbl phi ->
+  (forall i c, nth_error tbl i = Some c -> ~ In (length (mhandles sb)) (bhs c)) /\
+  (forall i c, nth_error tbl i = Some c -> ~ In (length (mhandles sl)) (lhs c)).
+Proof.
+  intros [Bok _ _]. split; intros i c Hi Hin.
+  - destruct (EntOK_bounds sb sl phi c (length (mhandles sb)) (Bok i c Hi)) as [H _]. specialize (H Hin). lia.
+  - destruct (EntOK_bounds sb sl phi c (length (mhandles sl)) (Bok i c Hi)) as [_ H]. specialize (H Hin). lia.
+Qed.
+
+(* ---------- Create ---------- *)
+Lemma wf_create_parts sb p : WF sb -> WfOps.wf_op sb (Create p) = true ->
+  wf_name p = true /\ normalize_path p <> s_slash /\ no_file_prefix sb (normalize_path p) = true /\ kind_at sb (normalize_path p) <> Some true.
+Proof.
+  intros W H. cbn [WfOps.wf_op] in H. apply andb_true_iff in H as [Hw Hk]. set (key := normalize_path p) in *.
+  assert (Hc : canon key) by (apply canon_normalize; exact Hw).
+  assert (Hr : key <> s_slash).
+  { intros E. rewrite E in Hk. destruct (g_root _ _ _ _ W) as (r & n & Hl & Hn & _ & Hd). unfold kind_at in Hk. rewrite Hl, Hn, Hd in Hk. discriminate. }
+  split; [exact Hw|]. split; [exact Hr|]. destruct (kind_at sb key) as [[|]|] eqn:Ek; [discriminate| |].
+  - split; [|discriminate]. apply kind_at_some in Ek as (r & n & Hl & _). exact (existing_nfp sb key r W Hl).
+  - split; [|discriminate]. now apply dir_parent_nfp.
+Qed.
+
+Theorem cinv_create dur now sb sl tbl p :
+  CInv (sb, sl, tbl) -> WfOps.wf_op sb (Create p) = true ->
+  CInv (fst (cache_step m_step m_step dur now (sb, sl, tbl) (Create p))).
+Proof.
+  intros (phi & [T B]) Hwf. cbn [cache_step]. set (key := normalize_path p) in *.
+  pose proof (ti_wfb _ _ _ T) as Wb. pose proof (ti_wfl _ _ _ T) as Wl. pose proof (TreeInv_shape _ _ _ T) as TS.
+  destruct (wf_create_parts sb p Wb Hwf) as (Hw & Hr & Hnb & Hkb). fold key in Hr, Hnb, Hkb.
+  destruct (create_step sb p Wb Hw Hr Hnb Hkb) as (fb & Hresb & Wb' & Fb & Db & Kb & Hhb & Hlenb & Hlb' & (nb' & Hnb' & Hdb' & Heb') & Holdb & _).
+  fold key in Hlb', Holdb.
+  assert (Hkl : kind_at sl key <> Some true) by (intros E; apply Hkb; exact (layer_kind_base sb sl phi TS key true E)).
+  destruct (create_step sl p Wl Hw Hr (nfp_base_layer sb sl phi TS key Hnb) Hkl)
+    as (fl & Hresl & Wl' & Fl & Dl & Kl & Hhl & Hlenl & Hll' & (nl' & Hnl' & Hdl' & Hel') & Holdl & Hchl).
+  fold key in Hll', Holdl, Hchl.
+  destruct (m_step sb (Create p)) as [sb' rb] eqn:Eb. destruct (m_step sl (Create p)) as [sl' rl] eqn:El. cbn [fst snd] in *. subst rb rl.
+  unfold alloc_ch. cbn [fst cret].
+  destruct (cinv_step_gen sb sl tbl phi sb' sl' Some (conj T B) Wb' Wl' Fb Fl) as (phi' & [T' B'] & Hext).
+  - (* bytes of the pairs *)
+    intros rl rb nl nb Hp Hnl Hnb2. destruct (ti_pair _ _ _ T rl rb Hp) as (nl0 & nb0 & Hnl0 & Hnb0 & _ & Hdat0).
+    destruct (Nat.eq_dec rb fb) as [->|Hneb].
+    + destruct Holdb as [Hob|[_ Hfb]]; [|exfalso; exact (fresh_not_old sb fb nb0 Hfb Hnb0)].
+      pose proof (ti_live _ _ _ T rl fb key Hp Hob) as Hlk. destruct Holdl as [Hol|[Hol _]]; [|congruence].
+      assert (rl = fl) by congruence. subst rl. congruence.
+    + assert (Hnel : rl <> fl).
+      { intros ->. destruct Holdl as [Hol|[_ Hfl]]; [|exact (fresh_not_old sl fl nl0 Hfl Hnl0)].
+        destruct (ti_key _ _ _ T key fl Hol) as (rb' & Hp' & Hb'). rewrite Hp in Hp'. inversion Hp'; subst rb'.
+        destruct Holdb as [Hob|[Hob _]]; congruence. }
+      rewrite (Dl rl nl0 nl Hnl0 Hnl Hnel), (Db rb nb0 nb Hnb0 Hnb2 Hneb). exact Hdat0.
+  - exact Kb.
+  - exact Kl.
+  - intros k' r Hk Hf. destruct (Hchl k' r Hk Hf) as [[-> ->]|(Hbel & n & Hn & Hdn & Hen)].
+    + exists fb, nl', nb'. repeat split; auto; congruence.
+    + destruct (anc_live sb' key fb k' Wb' Hlb' (g_canon _ _ _ _ Wl' k' r Hk) Hbel) as (ra & na & Hla & Hna & Hda).
+      exists ra, n, na. repeat split; auto; try congruence.
+      rewrite (frame_dirs_empty Some sb sb' Fb (ti_dirs _ _ _ T) k' ra na Hla Hna Hda). exact Hen.
+  - exists phi'. split; [exact T'|].
+    destruct (tbl_handles_below sb sl tbl phi B) as [Hfb Hfl].
+    apply (TblInv_new_union sb' sl' tbl phi' (length (mhandles sb)) (length (mhandles sl)) _ _ B' Hhb Hhl); auto.
+    + repeat split.
+    + cbn [href]. destruct (ti_key _ _ _ T' key fl Hll') as (rb & Hp & Hb). congruence.
+    + cbn [href]. intros n Hn Hd. congruence.
+Qed.
+
+(* ---------- only new handles ---------- *)
+Lemma CInvP_handles sb sl tbl phi sb' sl' :
+  CInvP sb sl tbl phi -> same2 sb sb' -> same2 sl sl' -> hkeep sb sb' -> hkeep sl sl' -> CInvP sb' sl' tbl phi.
+Proof.
+  intros [T B] Sb Sl Kb Kl. split; [now apply (TreeInv_view2 sb sl)|].
+  apply (TblInv_mono sb sl tbl phi sb' sl' phi B Kb Kl); [|auto | exact (phi_has_node phi sb sl T)].
+  intros r n Hn. exists n. now rewrite (same2_node _ _ _ Sl).
+Qed.
+
+Lemma same2_alloc s h : same2 s (bump (fst (alloc_handle s h))). Proof. now split. Qed.
+
+Lemma TblInv_new_single sb sl tbl phi c :
+  TblInv sb sl tbl phi -> EntOK sb sl phi c ->
+  (forall i ci h, nth_error tbl i = Some ci -> In h (bhs ci) -> ~ In h (bhs c)) ->
+  (forall i ci h, nth_error tbl i = Some ci -> In h (lhs ci) -> ~ In h (lhs c)) ->
+  TblInv sb sl (tbl ++ [c]) phi.
+Proof. apply TblInv_snoc. Qed.
+
+(* Open on the layer alone: a read-only handle *)
+Lemma cinv_open_layer sb sl tbl phi p :
+  CInvP sb sl tbl phi -> CInv (fst (open_layer m_step sb sl tbl (Open p))).
+Proof.
+  intros C. unfold open_layer. rewrite (open_step sl p). destruct (lookup sl (normalize_path p)) as [f|].
+  - unfold alloc_ch, ret. cbn [fst]. set (h := mkH f 0 0 false true). set (sl' := bump (fst (alloc_handle sl h))).
+    pose proof (CInvP_handles sb sl tbl phi sb sl' C (same2_refl sb) (same2_alloc sl h) (hkeep_refl sb) (hkeep_alloc sl h)) as [T' B'].
+    exists phi. split; [exact T'|]. destruct (tbl_handles_below sb sl tbl phi (proj2 C)) as [_ Hfl].
+    apply TblInv_new_single; auto.
+    + cbn [EntOK]. exists h. split; [apply (hnew_alloc sl h) | reflexivity].
+    + intros i ci x Hi Hin Hx. destruct Hx as [Hx|[]]. subst x. exact (Hfl i ci Hi Hin).
+  - unfold ret. cbn [fst]. exists phi. apply (CInvP_view sb sl tbl phi); [apply same3_refl | apply same3_bump | exact C].
+Qed.
+
+(* Open on the base alone (a directory the cache does not hold): a read-only handle *)
+Lemma cinv_open_base sb sl tbl phi p :
+  CInvP sb sl tbl phi -> CInv (fst (open_base m_step sb sl tbl (Open p))).
+Proof.
+  intros C. unfold open_base. rewrite (open_step sb p). destruct (lookup sb (normalize_path p)) as [f|].
+  - unfold alloc_ch, ret. cbn [fst]. set (h := mkH f 0 0 false true). set (sb' := bump (fst (alloc_handle sb h))).
+    pose proof (CInvP_handles sb sl tbl phi sb' sl C (same2_alloc sb h) (same2_refl sl) (hkeep_alloc sb h) (hkeep_refl sl)) as [T' B'].
+    exists phi. split; [exact T'|]. destruct (tbl_handles_below sb sl tbl phi (proj2 C)) as [Hfb _].
+    apply TblInv_new_single; auto.
+    + cbn [EntOK]. exists h. split; [apply (hnew_alloc sb h) | reflexivity].
+    + intros i ci x Hi Hin Hx. destruct Hx as [Hx|[]]. subst x. exact (Hfb i ci Hi Hin).
+  - unfold ret. cbn [fst]. exists phi. apply (CInvP_view sb sl tbl phi); [apply same3_bump | apply same3_refl | exact C].
+Qed.
+
+(* Open of a directory both layers hold: a UnionFile over two read-only handles *)
+Lemma cinv_union_dirs sb sl tbl phi p rl :
+  CInvP sb sl tbl phi -> lookup sl (normalize_path p) = Some rl ->
+  CInv (fst (let '(sb2, rb) := m_step sb (Open p) in
+             let '(sl2, rl) := m_step sl (Open p) in
+             let ob := match rb with RHandle h => Some h | _ => None end in
+             let ol := match rl with RHandle h => Some h | _ => None end in
+             match ob, ol with
+             | None, None => cret sb2 sl2 tbl (RErr (err_of rl))
+             | _, _ => let '(tbl1, i) := alloc_ch tbl (HU (mkUF ob ol 0 [])) in cret sb2 sl2 tbl1 (RHandle i)
+             end)).
+Proof.
+  intros C Hl. destruct (ti_key _ _ _ (proj1 C) _ rl Hl) as (rb & Hp & Hb).
+  rewrite (open_step sb p), (open_step sl p), Hl, Hb. unfold alloc_ch. cbn [fst cret].
+  set (hb := mkH rb 0 0 false true). set (hl := mkH rl 0 0 false true).
+  set (sb' := bump (fst (alloc_handle sb hb))). set (sl' := bump (fst (alloc_handle sl hl))).
+  pose proof (CInvP_handles sb sl tbl phi sb' sl' C (same2_alloc sb hb) (same2_alloc sl hl) (hkeep_alloc sb hb) (hkeep_alloc sl hl)) as [T' B'].
+  exists phi. split; [exact T'|]. destruct (tbl_handles_below sb sl tbl phi (proj2 C)) as [Hfb Hfl].
+  apply (TblInv_new_union sb' sl' tbl phi (length (mhandles sb)) (length (mhandles sl)) hb hl B'); auto.
+  - apply (hnew_alloc sb hb).
+  - apply (hnew_alloc sl hl).
+  - repeat split.
+Qed.
+
+(* ---------- Open ---------- *)
+Theorem cinv_open dur now sb sl tbl p :
+  CInv (sb, sl, tbl) -> WfOps.wf_op sb (Open p) = true ->
+  CInv (fst (cache_step m_step m_step dur now (sb, sl, tbl) (Open p))).
+Proof.
+  intros (phi & C) Hwf. cbn [cache_step].
+  assert (Hw : wf_name p = true) by (cbn [WfOps.wf_op] in Hwf; now apply andb_true_iff in Hwf as [Hw _]).
+  destruct (status_mem dur now sb sl phi p (TreeInv_shape _ _ _ (proj1 C))) as (sb1 & sl1 & cs & fi & Est & Sb & Sl & Hcs).
+  rewrite Est. pose proof (CInvP_view sb sl tbl phi sb1 sl1 Sb Sl C) as C1.
+  (* copy, then the layer's Open *)
+  assert (Hcopy : CInv (fst (match cache_copy_to_layer m_step m_step sb1 sl1 p with
+                             | (sb3, sl2, Some ce) => cret sb3 sl2 tbl (RErr ce)
+                             | (sb3, sl2, None) => open_layer m_step sb3 sl2 tbl (Open p)
+                             end))).
+  { destruct (cinv_cache_copy sb1 sl1 tbl phi p C1 Hw) as (sb3 & sl2 & oe & phi2 & Ecp & C2 & _).
+    rewrite Ecp. destruct oe as [ce|]; [cbn [fst cret]; now exists phi2 | exact (cinv_open_layer sb3 sl2 tbl phi2 p C2)]. }
+  destruct cs.
+  - (* miss *)
+    rewrite (step_stat_full sb1 p (ti_wfb _ _ _ (proj1 C1))).
+    assert (C1' : CInvP (bump sb1) sl1 tbl phi) by (apply (CInvP_view sb1 sl1 tbl phi); [apply same3_bump | apply same3_refl | exact C1]).
+    destruct (lookup sb1 (normalize_path p)) as [f|] eqn:Hlb.
+    + destruct (GWF_lookup_node _ _ _ _ _ _ (ti_wfb _ _ _ (proj1 C1)) Hlb) as (n & Hn). rewrite Hn. cbn [fi_dir finfo_of].
+      destruct (ndir n).
+      * exact (cinv_open_base (bump sb1) sl1 tbl phi p C1').
+      * destruct (cinv_cache_copy (bump sb1) sl1 tbl phi p C1' Hw) as (sb3 & sl2 & oe & phi2 & Ecp & C2 & _).
+        rewrite Ecp. destruct oe as [ce|]; [cbn [fst cret]; now exists phi2 | exact (cinv_open_layer sb3 sl2 tbl phi2 p C2)].
+    + cbn [fst cret]. now exists phi.
+  - (* stale *)
+    destruct Hcs as (rl & nl & f & Hl & Hnl & -> & Hfd).
+    destruct (fi_dir f); cbn [negb].
+    + apply (cinv_union_dirs sb1 sl1 tbl phi p rl C1). now rewrite (same3_lookup _ _ _ Sl).
+    + exact Hcopy.
+  - (* hit *)
+    destruct Hcs as (rl & nl & f & Hl & Hnl & -> & Hfd).
+    destruct (fi_dir f); cbn [negb].
+    + apply (cinv_union_dirs sb1 sl1 tbl phi p rl C1). now rewrite (same3_lookup _ _ _ Sl).
+    + exact (cinv_open_layer sb1 sl1 tbl phi p C1).
+  - destruct Hcs.
+Qed.
